@@ -32,6 +32,10 @@ type C17Case struct {
 	NTopics int      `json:"ntopics"`
 	SubQoS  [][]byte `json:"subqos"` // per subscriber: granted QoS per topic
 	Pubs    []C17Pub `json:"pubs"`
+	// Durable: one more subscriber with a persistent session (CleanSession=0, all topics) drops its
+	// connection and comes back Durable times while the publishers are sending: its restored
+	// subscriptions receive traffic from the first moment of every new connection.
+	Durable int `json:"durable,omitempty"`
 }
 
 const c17Ring = 16384
@@ -205,6 +209,94 @@ func runC17(c C17Case) (res c17result) {
 			}
 		}(pi, pb)
 	}
+	durFail := make(chan string, 1)
+	if c.Durable > 0 {
+		wg.Add(1)
+		go func() {
+			defer wg.Done()
+			last := map[[3]int]int{}
+			connect := func(gen int) (*fix.Conn, string) {
+				cn := b.Dial(fmt.Sprintf("D%d", gen))
+				first := true
+				var bad string
+				var mu sync.Mutex
+				cn.OnPacket = func(p *codec.Packet, off int64) bool {
+					mu.Lock()
+					defer mu.Unlock()
+					if first {
+						first = false
+						if p.Type != codec.CONNACK {
+							bad = fmt.Sprintf("connection %d of the subscriber with the persistent session: the first packet the broker wrote is %s, not the CONNACK", gen, codec.TypeName(p.Type))
+						}
+					}
+					if p.Type != codec.PUBLISH {
+						return false
+					}
+					pub, tp, seq, e := c17Check(p.Payload)
+					if e != "" && bad == "" {
+						bad = e
+						return true
+					}
+					k := [3]int{pub, tp, int(p.QoS)}
+					if l, ok := last[k]; ok && seq <= l && bad == "" {
+						bad = fmt.Sprintf("publisher %d, topic %d, QoS %d: message seq %d arrived after seq %d", pub, tp, p.QoS, seq, l)
+					}
+					last[k] = seq
+					return true
+				}
+				cn.AutoAck = true
+				ack, err := cn.Connect(wire.ConnectPacket("durable", false, 120))
+				if err != nil || ack.ReturnCode != 0 {
+					mu.Lock()
+					defer mu.Unlock()
+					if bad != "" {
+						return cn, bad
+					}
+					return cn, fmt.Sprintf("connection %d of the subscriber with the persistent session: no CONNACK (%v; stream: %v)", gen, err, cn.StreamErr())
+				}
+				return cn, ""
+			}
+			check := func(cn *fix.Conn, gen int) string {
+				if se := cn.StreamErr(); se != nil {
+					return fmt.Sprintf("connection %d of the subscriber with the persistent session received a malformed stream: %v", gen, se)
+				}
+				return ""
+			}
+			cn, f := connect(0)
+			if f != "" {
+				durFail <- f
+				return
+			}
+			sp := &codec.Packet{Type: codec.SUBSCRIBE, PacketID: 1}
+			for ti := 0; ti < c.NTopics; ti++ {
+				sp.Topics = append(sp.Topics, []byte(topic(ti)))
+				sp.QoSs = append(sp.QoSs, c.SubQoS[0][ti%len(c.SubQoS[0])])
+			}
+			cn.Send(sp)
+			cn.Barrier()
+			<-start
+			for gen := 1; gen <= c.Durable; gen++ {
+				time.Sleep(time.Duration(300*gen) * time.Microsecond)
+				cn.Close()
+				cn.WaitTeardown(wire.DefaultWait)
+				if f := check(cn, gen-1); f != "" {
+					durFail <- f
+					return
+				}
+				if cn, f = connect(gen); f != "" {
+					durFail <- f
+					return
+				}
+				cn.BarrierTimeout(wire.DefaultWait)
+				if f := check(cn, gen); f != "" {
+					durFail <- f
+					return
+				}
+			}
+			cn.Close()
+			cn.WaitTeardown(wire.DefaultWait)
+		}()
+	}
 	close(start)
 	done := make(chan struct{})
 	go func() { wg.Wait(); close(done) }()
@@ -217,6 +309,14 @@ func runC17(c C17Case) (res c17result) {
 		if e != "" {
 			return c17result{Fail: e}
 		}
+	}
+	select {
+	case f := <-durFail:
+		return c17result{Fail: f}
+	default:
+	}
+	if c.Durable > 0 {
+		res.Classes = append(res.Classes, "persistent-subscriber-reconnects-under-traffic")
 	}
 	res.Stats = map[string]int{}
 	for si, cn := range sconns {
@@ -285,6 +385,9 @@ func genC17(t *rapid.T) C17Case {
 		c.Pubs = append(c.Pubs, pb)
 	}
 	c.Transport = genTransport(t)
+	if rapid.Bool().Draw(t, "durable") {
+		c.Durable = rapid.IntRange(2, 8).Draw(t, "reconnects")
+	}
 	return c
 }
 
